@@ -131,7 +131,7 @@ func checkC06(w *World, r *Report) {
 	entries, binds, names := readEntryPoints(w)
 	r.Extra["entry_points"] = names
 
-	ru := r.Rule("C06.1", "no call path from a read entry point reaches a blocking acquire (Mutex/RWMutex lock, Cond/WaitGroup wait, Once, channel send/receive/select, time.Sleep) or takes the address of the Router writer lock", 40)
+	ru := r.Rule("C06.1", "no call path from a read entry point reaches a blocking acquire (Mutex/RWMutex lock, Cond/WaitGroup wait, Once, channel send/receive/select, time.Sleep) or takes the address of the Router writer lock", 20)
 	ru.Idiom("acquire control-dependent on a boolean parameter that the read path passes as constant false (txnWith(write=false))",
 		"sync.Pool Get/Put (non-blocking with respect to writers)",
 		"the mutex embedded in internal/slogpretty.lockedWriter: serialises log lines of the optional Logger/Recovery middleware and is never held by a writer")
@@ -216,7 +216,7 @@ func checkC06(w *World, r *Report) {
 	r.Extra["call_graph"] = cg.kind
 
 	// positive control: the same machinery must find the writer lock from the write entry points.
-	ctl := r.Rule("C06.1-control", "positive control: from every write entry point the analysis does reach the Router lock acquire (a rule expecting zero matches must be shown able to match)", 6)
+	ctl := r.Rule("C06.1-control", "positive control: from every write entry point the analysis does reach the Router lock acquire (a rule expecting zero matches must be shown able to match)", 3)
 	var wentries []*ssa.Function
 	for _, m := range []string{"Handle", "HandleRoute", "Update", "UpdateRoute", "Delete", "Updates"} {
 		wentries = append(wentries, w.Method("Router", m))
@@ -240,7 +240,7 @@ func checkC06(w *World, r *Report) {
 	checkC06ReadOnlyTxn(w, r, muField)
 
 	// C06.3 writers wait only for writers: between Lock and Unlock no other acquire.
-	ru3 := r.Rule("C06.3", "functions that run while the writer lock is held (reachable from the write methods of Txn) perform no other blocking acquire", 5)
+	ru3 := r.Rule("C06.3", "functions that run while the writer lock is held (reachable from the write methods of Txn) perform no other blocking acquire", 3)
 	var tmethods []*ssa.Function
 	for _, m := range []string{"Handle", "HandleRoute", "Update", "UpdateRoute", "Delete", "Truncate", "Commit", "Abort"} {
 		tmethods = append(tmethods, w.Method("Txn", m))
@@ -258,7 +258,7 @@ func checkC06(w *World, r *Report) {
 
 	if r.Tier == "thorough" {
 		vcg := w.VTA()
-		ruv := r.Rule("C06.1-vta", "cross-check: the VTA-refined call graph gives the same verdict for every read entry point", 40)
+		ruv := r.Rule("C06.1-vta", "cross-check: the VTA-refined call graph gives the same verdict for every read entry point", 20)
 		_, vv, _ := explore(vcg, entries, binds)
 		for i, e := range entries {
 			same := (len(vv[i]) > 0) == (len(found[i]) > 0)
@@ -268,7 +268,7 @@ func checkC06(w *World, r *Report) {
 }
 
 func checkC06ReadOnlyTxn(w *World, r *Report, muField *types.Var) {
-	ru := r.Rule("C06.2", "a read-only transaction never touches the writer lock: Txn.write is only ever set from txnWith's parameter, every Lock/Unlock of the Router lock is guarded by it", 4)
+	ru := r.Rule("C06.2", "a read-only transaction never touches the writer lock: Txn.write is only ever set from txnWith's parameter, every Lock/Unlock of the Router lock is guarded by it", 2)
 	txnT := w.FoxType("Txn")
 	writeField := w.Field(txnT, "write")
 	txnWith := w.Method("Router", "txnWith")
@@ -330,6 +330,20 @@ func checkC06ReadOnlyTxn(w *World, r *Report, muField *types.Var) {
 				}
 				if _, fld, ok := loadedField(ft.Cond); ok && fld == writeField && ft.Val {
 					guarded, how = true, "dominated by the test txn.write == true"
+				}
+			}
+			if !guarded {
+				// a helper private to guarded callers
+				writeGuarded := func(caller *ssa.Function, s ssa.CallInstruction) bool {
+					for _, ft := range factsAtBlock(s.Block()) {
+						if _, fld, ok := loadedField(ft.Cond); ok && fld == writeField && ft.Val {
+							return true
+						}
+					}
+					return false
+				}
+				if holdsAtEveryCall(w, fn, writeGuarded, 0) {
+					guarded, how = true, "helper whose every call site is dominated by txn.write == true"
 				}
 			}
 			ru.Check(obj.Name()+" of Router lock in "+FuncName(fn), w.Pos(in.Pos()), "Lock/Unlock of the writer lock happens only for write transactions", guarded, orDefault(how, "not guarded by the write flag"))
